@@ -162,6 +162,7 @@ Proof.
     reflexivity.
 Qed.
 
+
 (* ---------- the upload loop ---------- *)
 
 Definition no_upfail (l : list bool) : Prop := forallb negb l = true.
@@ -177,15 +178,15 @@ Lemma upload_loop_S : forall fuel cs limit inl etc bytes e upfail off acc uerr h
     let '(d, rest, rerr) := read_chunk cs bytes e in
     let dsz := N.of_nat (length d) in
     let hashed' := (hashed + dsz)%N in
-    if rerr || (dsz =? 0)%N then UR acc off uerr [] hashed'
-    else if (off =? 0)%N && inl && ((Z.of_N dsz <? limit)%Z || etc)
-    then UR acc (off + dsz)%N uerr d hashed'
+    if rerr || (dsz =? 0)%N then UR acc off uerr rerr [] hashed'
+    else if (off =? 0)%N && inl && (Z.of_N dsz <? cs)%Z && ((Z.of_N dsz <? limit)%Z || etc)
+    then UR acc (off + dsz)%N uerr false d hashed'
     else
       let failed := hd false upfail in
       let acc' := if failed then acc else acc ++ [Ck off dsz d] in
       let uerr' := uerr || failed in
       let off' := (off + dsz)%N in
-      if (Z.of_N dsz <? cs)%Z then UR acc' off' uerr' [] hashed'
+      if (Z.of_N dsz <? cs)%Z then UR acc' off' uerr' false [] hashed'
       else upload_loop fuel cs limit inl etc rest e (tl upfail) off' acc' uerr' hashed'.
 Proof. reflexivity. Qed.
 
@@ -199,71 +200,64 @@ Lemma read_chunk_pos : forall cs bytes e, (0 < cs)%Z ->
      end).
 Proof. intros. unfold read_chunk. destruct (cs <=? 0)%Z eqn:E; [lia|reflexivity]. Qed.
 
-(* No inlining, no upload failure: the loop stores a prefix of the body as
-   back-to-back chunks; the whole body when the reader ends with EOF, a
-   chunk-rounded prefix when it ends with an error. *)
-Lemma loop_spec : forall fuel cs limit inl etc bytes e upfail off acc hashed,
+(* the first read is inlined: it is shorter than a chunk and (below the limit or under /etc) *)
+Definition inline_cond (cs limit : Z) (etc : bool) (len : nat) : bool :=
+  let dsz := Z.of_nat (Nat.min (Z.to_nat cs) len) in
+  (dsz <? cs)%Z && ((dsz <? limit)%Z || etc).
+
+(* No inlining, no upload failure, EOF body: the loop stores the whole body as
+   back-to-back chunks. *)
+Lemma loop_spec : forall fuel cs limit inl etc bytes upfail off acc hashed,
   (0 < cs)%Z ->
   (Z.of_nat (length bytes) < cs * Z.of_nat fuel)%Z ->
-  (off <> 0%N \/ inl = false \/
-   ((Z.of_nat (Nat.min (Z.to_nat cs) (length bytes)) <? limit)%Z || etc) = false) ->
+  (off <> 0%N \/ inl = false \/ inline_cond cs limit etc (length bytes) = false) ->
   no_upfail upfail ->
-  exists new n hashed',
-    upload_loop fuel cs limit inl etc bytes e upfail off acc false hashed
-      = UR (acc ++ new) (off + N.of_nat n) false [] hashed' /\
-    tiles off new (firstn n bytes) /\ (n <= length bytes)%nat /\
-    (e = Eof -> n = length bytes /\ hashed' = (hashed + N.of_nat (length bytes))%N) /\
-    (is_err e = true ->
-       (exists k, n = k * Z.to_nat cs)%nat /\ (length bytes - n <= Z.to_nat cs)%nat).
+  exists new,
+    upload_loop fuel cs limit inl etc bytes Eof upfail off acc false hashed
+      = UR (acc ++ new) (off + N.of_nat (length bytes)) false false []
+           (hashed + N.of_nat (length bytes)) /\
+    tiles off new bytes.
 Proof.
-  induction fuel as [|fuel IH]; intros cs limit inl etc bytes e upfail off acc hashed Hcs Hfuel Hinl Hup.
+  induction fuel as [|fuel IH]; intros cs limit inl etc bytes upfail off acc hashed Hcs Hfuel Hinl Hup.
   - exfalso. lia.
   - rewrite upload_loop_S, read_chunk_pos by exact Hcs.
     set (n0 := Z.to_nat cs) in *.
     set (d := firstn n0 bytes).
     assert (Hd : length d = Nat.min n0 (length bytes)) by apply firstn_length.
-    cbv zeta.
-    set (rerr := match e with Eof => false | ReadErr => Nat.ltb (length bytes) n0
-                            | ReadErrData => Nat.leb (length bytes) n0 end).
-    destruct (rerr || (N.of_nat (length d) =? 0)%N) eqn:Hstop.
-    { (* break *)
-      exists [], 0%nat, (hashed + N.of_nat (length d))%N.
-      rewrite app_nil_r. split; [f_equal; lia|]. split; [constructor|]. split; [lia|].
-      split.
-      - intros ->. subst rerr. simpl in Hstop. split; [lia|]. f_equal. lia.
-      - intros He. split; [exists 0%nat; lia|].
-        subst rerr. destruct e; simpl in *; try discriminate; lia. }
-    destruct ((off =? 0)%N && inl && ((Z.of_N (N.of_nat (length d)) <? limit)%Z || etc)) eqn:Hinline.
+    cbv zeta. rewrite orb_false_l.
+    destruct (N.of_nat (length d) =? 0)%N eqn:Hstop.
+    { (* break: the body is exhausted *)
+      assert (Hlen : length bytes = 0%nat) by lia.
+      exists []. rewrite app_nil_r, Hlen. split; [f_equal; lia|].
+      destruct bytes; [constructor|discriminate]. }
+    destruct ((off =? 0)%N && inl && (Z.of_N (N.of_nat (length d)) <? cs)%Z &&
+              ((Z.of_N (N.of_nat (length d)) <? limit)%Z || etc)) eqn:Hinline.
     { exfalso. rewrite Hd in Hinline. destruct Hinl as [H|[H|H]].
-      - lia.
+      - destruct (off =? 0)%N eqn:E; [lia|]. discriminate.
       - subst inl. rewrite andb_false_r in Hinline. discriminate.
-      - rewrite nat_N_Z in Hinline. rewrite H in Hinline. rewrite andb_false_r in Hinline. discriminate. }
+      - unfold inline_cond in H. fold n0 in H. rewrite nat_N_Z in Hinline.
+        rewrite <- andb_assoc in Hinline. rewrite H in Hinline.
+        rewrite andb_false_r in Hinline. discriminate. }
     rewrite (no_upfail_hd _ Hup). cbv iota. rewrite orb_false_r.
     destruct (Z.of_N (N.of_nat (length d)) <? cs)%Z eqn:Hshort.
     { (* last, short chunk *)
       assert (Hall : d = bytes) by (subst d; apply firstn_all2; lia).
-      exists [Ck off (N.of_nat (length d)) d], (length bytes), (hashed + N.of_nat (length d))%N.
-      rewrite firstn_all. split; [f_equal; f_equal; rewrite Hall; reflexivity|].
-      split. { pose proof (tiles_cons off d [] [] (tiles_nil _)) as Ht.
-               rewrite app_nil_r in Ht. rewrite Hall in Ht at 3. exact Ht. }
-      split; [lia|]. split.
-      - intros _. split; [reflexivity|]. rewrite Hall. reflexivity.
-      - intros He. exfalso. subst rerr. destruct e; simpl in *; try discriminate; lia. }
+      exists [Ck off (N.of_nat (length d)) d].
+      split; [rewrite Hall; reflexivity|].
+      pose proof (tiles_cons off d [] [] (tiles_nil _)) as Ht.
+      rewrite app_nil_r in Ht. rewrite Hall in Ht at 3. exact Ht. }
     (* a full chunk, continue *)
     assert (Hfull : length d = n0) by lia.
-    destruct (IH cs limit inl etc (skipn n0 bytes) e (tl upfail)
+    destruct (IH cs limit inl etc (skipn n0 bytes) (tl upfail)
                  (off + N.of_nat (length d))%N (acc ++ [Ck off (N.of_nat (length d)) d])
-                 (hashed + N.of_nat (length d))%N Hcs) as (new & n & h' & Heq & Ht & Hn & Heof & Herr).
+                 (hashed + N.of_nat (length d))%N Hcs) as (new & Heq & Ht).
     { rewrite skipn_length. lia. }
     { left. lia. }
     { apply no_upfail_tl, Hup. }
-    rewrite skipn_length in *.
-    exists (Ck off (N.of_nat (length d)) d :: new), (n0 + n)%nat, h'.
-    split. { rewrite Heq. rewrite <- app_assoc. simpl. f_equal. lia. }
-    split. { rewrite firstn_plus. fold d. constructor. exact Ht. }
-    split; [lia|]. split.
-    + intros He. destruct (Heof He) as [-> ->]. split; lia.
-    + intros He. destruct (Herr He) as [[k Hk] Hrem]. split; [exists (S k); lia|lia].
+    rewrite skipn_length in Heq.
+    exists (Ck off (N.of_nat (length d)) d :: new).
+    split. { rewrite Heq. rewrite <- app_assoc. simpl. f_equal; lia. }
+    rewrite <- (firstn_skipn n0 bytes). fold d. constructor. exact Ht.
 Qed.
 
 Lemma fuel_ok : forall cs len, (0 < cs)%Z ->
@@ -287,16 +281,15 @@ Proof.
   induction fuel as [|fuel IH]; intros; [reflexivity|].
   rewrite upload_loop_S. destruct (read_chunk cs bytes e) as [[d rest] rerr]. cbv zeta.
   destruct (rerr || _); [reflexivity|].
-  destruct (_ && _ && _); [reflexivity|].
-  simpl orb. destruct (_ <? _)%Z; [reflexivity|]. apply IH.
+  destruct (_ && _ && _ && _); [reflexivity|].
+  simpl orb. destruct (Z.of_N (N.of_nat (length d)) <? cs)%Z; [reflexivity|]. apply IH.
 Qed.
 
 (* chunk j fails and chunk j is reached: the upload as a whole fails *)
 Lemma loop_err_detected : forall fuel cs limit inl etc bytes upfail off acc uerr hashed j,
   (0 < cs)%Z ->
   (Z.of_nat (length bytes) < cs * Z.of_nat fuel)%Z ->
-  (off <> 0%N \/ inl = false \/
-   ((Z.of_nat (Nat.min (Z.to_nat cs) (length bytes)) <? limit)%Z || etc) = false) ->
+  (off <> 0%N \/ inl = false \/ inline_cond cs limit etc (length bytes) = false) ->
   nth j upfail false = true ->
   (Z.of_nat j * cs < Z.of_nat (length bytes))%Z ->
   ur_err (upload_loop fuel cs limit inl etc bytes Eof upfail off acc uerr hashed) = true.
@@ -310,12 +303,14 @@ Proof.
     assert (Hd : length d = Nat.min n0 (length bytes)) by apply firstn_length.
     cbv zeta. rewrite orb_false_l.
     destruct (N.of_nat (length d) =? 0)%N eqn:Hz; [exfalso; lia|].
-    destruct ((off =? 0)%N && inl && ((Z.of_N (N.of_nat (length d)) <? limit)%Z || etc)) eqn:Hinline.
+    destruct ((off =? 0)%N && inl && (Z.of_N (N.of_nat (length d)) <? cs)%Z &&
+              ((Z.of_N (N.of_nat (length d)) <? limit)%Z || etc)) eqn:Hinline.
     { exfalso. rewrite Hd in Hinline. destruct Hinl as [H|[H|H]].
-      - apply andb_true_iff in Hinline. destruct Hinline as [Hi _].
-        apply andb_true_iff in Hi. lia.
+      - destruct (off =? 0)%N eqn:E; [lia|]. discriminate.
       - subst inl. rewrite andb_false_r in Hinline. discriminate.
-      - rewrite nat_N_Z in Hinline. rewrite H in Hinline. rewrite andb_false_r in Hinline. discriminate. }
+      - unfold inline_cond in H. fold n0 in H. rewrite nat_N_Z in Hinline.
+        rewrite <- andb_assoc in Hinline. rewrite H in Hinline.
+        rewrite andb_false_r in Hinline. discriminate. }
     destruct j as [|j].
     + destruct upfail as [|b upfail]; simpl in Hj; [discriminate|]. subst b. simpl hd.
       rewrite orb_true_r.
@@ -328,78 +323,97 @@ Proof.
       * rewrite skipn_length. lia.
 Qed.
 
+(* a failing body reader is always noticed (whatever the uploads do, inlining or not) *)
+Lemma loop_rerr : forall fuel cs limit inl etc bytes e upfail off acc uerr hashed,
+  (0 < cs)%Z ->
+  (Z.of_nat (length bytes) < cs * Z.of_nat fuel)%Z ->
+  is_err e = true ->
+  ur_rerr (upload_loop fuel cs limit inl etc bytes e upfail off acc uerr hashed) = true.
+Proof.
+  induction fuel as [|fuel IH]; intros cs limit inl etc bytes e upfail off acc uerr hashed
+    Hcs Hfuel He.
+  - exfalso. lia.
+  - rewrite upload_loop_S, read_chunk_pos by exact Hcs.
+    set (n0 := Z.to_nat cs) in *.
+    set (d := firstn n0 bytes).
+    assert (Hd : length d = Nat.min n0 (length bytes)) by apply firstn_length.
+    cbv zeta.
+    set (rerr := match e with Eof => false | ReadErr => Nat.ltb (length bytes) n0
+                            | ReadErrData => Nat.leb (length bytes) n0 end).
+    destruct rerr eqn:Hr.
+    { reflexivity. }
+    (* no error in this read: a full chunk was read and more follows *)
+    assert (Hge : (n0 <= length bytes)%nat).
+    { subst rerr. destruct e; simpl in He; try discriminate.
+      - apply Nat.ltb_ge in Hr. lia.
+      - apply Nat.leb_gt in Hr. lia. }
+    rewrite orb_false_l.
+    destruct (N.of_nat (length d) =? 0)%N eqn:Hz; [exfalso; lia|].
+    replace (Z.of_N (N.of_nat (length d)) <? cs)%Z with false by lia.
+    rewrite andb_false_r. simpl andb. cbv iota.
+    apply IH; auto. rewrite skipn_length. lia.
+Qed.
+
+Lemma finish_err : forall r, ur_err (finish r) = ur_err r.
+Proof. intros r. unfold finish. destruct (ur_failed r); reflexivity. Qed.
+
+Lemma finish_rerr : forall r, ur_rerr (finish r) = ur_rerr r.
+Proof. intros r. unfold finish. destruct (ur_failed r); reflexivity. Qed.
+
+Lemma finish_failed : forall r, ur_failed (finish r) = ur_failed r.
+Proof. intros r. unfold ur_failed. rewrite finish_err, finish_rerr. reflexivity. Qed.
+
 (* ---------- the whole upload, EOF body ---------- *)
 
-Definition inline_cond (cs limit : Z) (etc : bool) (len : nat) : bool :=
-  (Z.of_nat (Nat.min (Z.to_nat cs) len) <? limit)%Z || etc.
-
-Lemma upload_no_inline : forall cs limit inl etc bytes e upfail,
+Lemma upload_no_inline : forall cs limit inl etc bytes upfail,
   (1 <= cs)%Z -> no_upfail upfail ->
   inl = false \/ inline_cond cs limit etc (length bytes) = false ->
-  exists new n hashed',
-    upload_reader_to_chunks cs limit inl etc bytes e upfail
-      = UR new (N.of_nat n) false [] hashed' /\
-    tiles 0 new (firstn n bytes) /\ (n <= length bytes)%nat /\
-    (e = Eof -> n = length bytes /\ hashed' = N.of_nat (length bytes)) /\
-    (is_err e = true ->
-       (exists k, n = k * Z.to_nat cs)%nat /\ (length bytes - n <= Z.to_nat cs)%nat).
+  exists new,
+    upload_reader_to_chunks cs limit inl etc bytes Eof upfail
+      = UR new (N.of_nat (length bytes)) false false [] (N.of_nat (length bytes)) /\
+    tiles 0 new bytes.
 Proof.
-  intros cs limit inl etc bytes e upfail Hcs Hup Hinl.
+  intros cs limit inl etc bytes upfail Hcs Hup Hinl.
   unfold upload_reader_to_chunks.
   assert (Hc0 : (0 < cs)%Z) by lia.
   pose proof (fuel_ok cs (length bytes) Hc0) as Hf.
-  assert (Hi : 0%N <> 0%N \/ inl = false \/
-               ((Z.of_nat (Nat.min (Z.to_nat cs) (length bytes)) <? limit)%Z || etc) = false)
+  assert (Hi : 0%N <> 0%N \/ inl = false \/ inline_cond cs limit etc (length bytes) = false)
     by (destruct Hinl; auto).
-  destruct (loop_spec _ cs limit inl etc bytes e upfail 0%N [] 0%N Hc0 Hf Hi Hup)
-    as (new & n & h' & Heq & Ht & Hn & Heof & Herr).
-  exists new, n, h'. rewrite Heq. unfold finish. simpl.
-  split; [f_equal; lia|]. split; [exact Ht|]. split; [exact Hn|]. split; [|exact Herr].
-  intros He. destruct (Heof He) as [-> ->]. split; [reflexivity|lia].
+  destruct (loop_spec _ cs limit inl etc bytes upfail 0%N [] 0%N Hc0 Hf Hi Hup) as (new & Heq & Ht).
+  exists new. rewrite Heq. unfold finish, ur_failed. simpl.
+  split; [f_equal; lia|exact Ht].
 Qed.
 
-(* first read inlined: it is all that is kept *)
-Lemma upload_inline : forall cs limit etc bytes e upfail,
+(* first read inlined: it is the whole body *)
+Lemma upload_inline : forall cs limit etc bytes upfail,
   (1 <= cs)%Z -> bytes <> [] ->
-  (length bytes <= Z.to_nat cs)%nat ->
   inline_cond cs limit etc (length bytes) = true ->
-  (match e with Eof => true | ReadErr => Nat.leb (Z.to_nat cs) (length bytes) | ReadErrData => false end) = true ->
-  upload_reader_to_chunks cs limit true etc bytes e upfail
-    = UR [] (N.of_nat (length bytes)) false bytes (N.of_nat (length bytes)).
+  upload_reader_to_chunks cs limit true etc bytes Eof upfail
+    = UR [] (N.of_nat (length bytes)) false false bytes (N.of_nat (length bytes)).
 Proof.
-  intros cs limit etc bytes e upfail Hcs Hne Hlen Hcond He.
+  intros cs limit etc bytes upfail Hcs Hne Hcond.
   unfold upload_reader_to_chunks.
   destruct (fuel_for_S cs (N.of_nat (length bytes))) as [f ->].
   rewrite upload_loop_S, read_chunk_pos by lia.
-  rewrite firstn_all2 by lia. cbv zeta.
   assert (Hpos : (0 < length bytes)%nat) by (destruct bytes; [congruence|simpl; lia]).
-  replace (match e with Eof => false | ReadErr => Nat.ltb (length bytes) (Z.to_nat cs)
-                      | ReadErrData => Nat.leb (length bytes) (Z.to_nat cs) end) with false.
-  2:{ destruct e; try reflexivity; try discriminate. symmetry. apply Nat.ltb_ge. apply Nat.leb_le in He. lia. }
-  simpl orb.
+  unfold inline_cond in Hcond. cbv zeta in Hcond.
+  apply andb_true_iff in Hcond. destruct Hcond as [Hlt Hlim].
+  assert (Hlen : (length bytes < Z.to_nat cs)%nat) by lia.
+  rewrite Nat.min_r in Hlim by lia.
+  rewrite firstn_all2 by lia. cbv zeta. rewrite orb_false_l.
   destruct (N.of_nat (length bytes) =? 0)%N eqn:Hz; [exfalso; lia|].
-  unfold inline_cond in Hcond. rewrite Nat.min_r in Hcond by lia.
-  rewrite nat_N_Z, Hcond. simpl. unfold finish. simpl. f_equal; lia.
+  rewrite nat_N_Z, Hlim.
+  replace (Z.of_nat (length bytes) <? cs)%Z with true by lia.
+  simpl. unfold finish, ur_failed. simpl. f_equal; lia.
 Qed.
 
 Lemma upload_empty : forall cs limit inl etc upfail,
-  upload_reader_to_chunks cs limit inl etc [] Eof upfail = UR [] 0 false [] 0.
+  upload_reader_to_chunks cs limit inl etc [] Eof upfail = UR [] 0 false false [] 0.
 Proof.
   intros. unfold upload_reader_to_chunks.
   destruct (fuel_for_S cs (N.of_nat (@length N []))) as [f ->].
   rewrite upload_loop_S. unfold read_chunk. destruct (cs <=? 0)%Z; [reflexivity|].
   rewrite firstn_nil. reflexivity.
-Qed.
-
-(* chunk size <= 0: the LimitReader yields nothing, whatever the body is *)
-Lemma upload_nonpositive_cs : forall cs limit inl etc bytes e upfail,
-  (cs <= 0)%Z ->
-  upload_reader_to_chunks cs limit inl etc bytes e upfail = UR [] 0 false [] 0.
-Proof.
-  intros. unfold upload_reader_to_chunks.
-  destruct (fuel_for_S cs (N.of_nat (length bytes))) as [f ->].
-  rewrite upload_loop_S. unfold read_chunk.
-  destruct (cs <=? 0)%Z eqn:E; [reflexivity|lia].
 Qed.
 
 (* ---------- reading stored entries ---------- *)
@@ -418,24 +432,27 @@ Proof.
   simpl. rewrite skipn_all2 by (rewrite repeat_length; lia). apply app_nil_r.
 Qed.
 
+Lemma entry_size_chunked : forall e, e_content e = [] -> entry_size e = file_end e.
+Proof. intros e H. unfold entry_size, file_end. rewrite H. simpl. lia. Qed.
+
 Lemma read_append : forall e0 new data,
-  e_content e0 = [] -> wf_entry e0 -> (extent (e_chunks e0) <= e_size e0)%N ->
-  tiles (e_size e0) new data ->
-  read_entry {| e_size := e_size e0 + N.of_nat (length data); e_content := [];
+  e_content e0 = [] -> wf_entry e0 ->
+  tiles (file_end e0) new data ->
+  read_entry {| e_size := file_end e0 + N.of_nat (length data); e_content := [];
                 e_chunks := e_chunks e0 ++ new; e_md5 := None |}
   = read_entry e0 ++ data.
 Proof.
-  intros e0 new data Hc Hwf Hext Ht.
-  unfold read_entry, file_end. rewrite Hc. simpl.
+  intros e0 new data Hc Hwf Ht.
+  unfold read_entry. rewrite Hc. simpl.
   pose proof (tiles_extent _ _ _ Ht) as He.
-  rewrite extent_app.
-  replace (N.max (e_size e0 + N.of_nat (length data)) (N.max (extent (e_chunks e0)) (extent new)))
-    with (e_size e0 + N.of_nat (length data))%N by lia.
-  replace (N.max (e_size e0) (extent (e_chunks e0))) with (e_size e0) by lia.
-  replace (N.to_nat (e_size e0 + N.of_nat (length data)))
-    with (N.to_nat (e_size e0) + length data)%nat by lia.
+  assert (Hext : (extent (e_chunks e0) <= file_end e0)%N) by (unfold file_end; lia).
+  unfold file_end at 1. simpl. rewrite extent_app.
+  replace (N.max (file_end e0 + N.of_nat (length data)) (N.max (extent (e_chunks e0)) (extent new)))
+    with (file_end e0 + N.of_nat (length data))%N by lia.
+  replace (N.to_nat (file_end e0 + N.of_nat (length data)))
+    with (N.to_nat (file_end e0) + length data)%nat by lia.
   rewrite repeat_app, fold_left_app.
-  set (s := N.to_nat (e_size e0)).
+  set (s := N.to_nat (file_end e0)).
   assert (Hin : Forall (within (length (repeat 0%N s))) (e_chunks e0)).
   { rewrite repeat_length. apply Forall_forall. intros c Hc0.
     unfold wf_entry in Hwf. rewrite Forall_forall in Hwf. specialize (Hwf c Hc0).
@@ -448,12 +465,11 @@ Proof.
   rewrite skipn_all2 by (rewrite app_length, repeat_length; lia).
   rewrite app_nil_r. reflexivity.
 Qed.
+
 (* ---------- handle_write ---------- *)
 
 Definition existing (rq : request) (pre : option entry) : option entry :=
   if rq_append rq then pre else None.
-
-Definition body_len (rq : request) : nat := length (rq_body rq).
 
 (* the request could not be taken in completely: the body reader failed, or an upload failed *)
 Definition request_fails (rq : request) : bool :=
@@ -464,7 +480,7 @@ Variable md5 : list N -> N.
 
 Definition write_core (rq : request) (pre : option entry) : status * option entry :=
   let ur := upload_of rq in
-  if ur_err ur then (Failed, pre)
+  if ur_failed ur then (Failed, pre)
   else
     let '(ok, post) := save_metadata md5 (rq_append rq) pre (rq_body rq) ur in
     ((if ok then Created else Failed), post).
@@ -484,13 +500,12 @@ Proof. intros. unfold save_metadata. rewrite H. reflexivity. Qed.
 Theorem stored_equals_body : forall rq pre,
   rq_method rq <> PostRaw -> (1 <= rq_cs rq)%Z -> rq_end rq = Eof -> no_upfail (rq_upfail rq) ->
   existing rq pre = None ->
-  inline_trunc_trigger rq = false ->
   exists e, handle_write md5 rq pre = (Created, Some e) /\
             read_entry e = rq_body rq /\
             e_size e = N.of_nat (length (rq_body rq)) /\
             e_md5 e = Some (md5 (rq_body rq)).
 Proof.
-  intros rq pre Hm Hcs Hend Hup Hex Htrig.
+  intros rq pre Hm Hcs Hend Hup Hex.
   rewrite handle_write_core by exact Hm. unfold write_core, upload_of. rewrite Hend.
   unfold existing in Hex.
   assert (Hchunked : rq_append rq = true \/
@@ -498,18 +513,16 @@ Proof.
           exists e,
             (let ur := upload_reader_to_chunks (rq_cs rq) (rq_limit rq) (negb (rq_append rq)) (rq_etc rq)
                          (rq_body rq) Eof (rq_upfail rq) in
-             if ur_err ur then (Failed, pre)
+             if ur_failed ur then (Failed, pre)
              else let '(ok, post) := save_metadata md5 (rq_append rq) pre (rq_body rq) ur in
                   ((if ok then Created else Failed), post)) = (Created, Some e) /\
             read_entry e = rq_body rq /\ e_size e = N.of_nat (length (rq_body rq)) /\
             e_md5 e = Some (md5 (rq_body rq))).
   { intros Hni.
     destruct (upload_no_inline (rq_cs rq) (rq_limit rq) (negb (rq_append rq)) (rq_etc rq)
-                (rq_body rq) Eof (rq_upfail rq) Hcs Hup) as (new & n & h & Heq & Ht & Hn & Heof & _).
+                (rq_body rq) (rq_upfail rq) Hcs Hup) as (new & Heq & Ht).
     { destruct Hni as [->|H]; auto. }
-    destruct (Heof eq_refl) as [-> ->].
-    rewrite firstn_all in Ht.
-    cbv zeta. rewrite Heq. simpl ur_err. cbv iota.
+    cbv zeta. rewrite Heq. unfold ur_failed. simpl orb. cbv iota.
     rewrite save_new by exact Hex. simpl.
     eexists. split; [reflexivity|]. simpl.
     rewrite Nat2N.id, firstn_all.
@@ -522,14 +535,8 @@ Proof.
   - rewrite upload_empty. simpl.
     eexists. split; [reflexivity|]. split; [reflexivity|]. split; reflexivity.
   - rewrite <- Hb in *.
-    assert (Hlen : (length (rq_body rq) <= Z.to_nat (rq_cs rq))%nat).
-    { unfold inline_trunc_trigger in Htrig. rewrite Happ in Htrig. simpl in Htrig.
-      unfold inline_cond in Hc.
-      destruct (rq_cs rq <? Z.of_nat (length (rq_body rq)))%Z eqn:Hlt; [|lia].
-      rewrite Nat.min_l in Hc by lia. rewrite Z2Nat.id in Hc by lia.
-      rewrite Hc in Htrig. discriminate. }
     rewrite upload_inline; auto; [|rewrite Hb; discriminate].
-    simpl ur_err. cbv iota. rewrite save_new by reflexivity. simpl.
+    unfold ur_failed. simpl orb. cbv iota. rewrite save_new by reflexivity. simpl.
     eexists. split; [reflexivity|]. simpl.
     rewrite Nat2N.id, firstn_all.
     split; [|split; reflexivity].
@@ -540,27 +547,28 @@ Qed.
 Theorem append_at_end : forall rq e0,
   rq_method rq <> PostRaw -> (1 <= rq_cs rq)%Z -> rq_end rq = Eof -> no_upfail (rq_upfail rq) ->
   rq_append rq = true -> e_content e0 = [] -> wf_entry e0 ->
-  append_trigger rq (Some e0) = false ->
   exists e1, handle_write md5 rq (Some e0) = (Created, Some e1) /\
              read_entry e1 = read_entry e0 ++ rq_body rq /\
-             e_size e1 = (e_size e0 + N.of_nat (length (rq_body rq)))%N /\
-             file_end e1 = (file_end e0 + N.of_nat (length (rq_body rq)))%N.
+             file_end e1 = (file_end e0 + N.of_nat (length (rq_body rq)))%N /\
+             e_size e1 = file_end e1.
 Proof.
-  intros rq e0 Hm Hcs Hend Hup Happ Hc Hwf Htrig.
+  intros rq e0 Hm Hcs Hend Hup Happ Hc Hwf.
   rewrite handle_write_core by exact Hm. unfold write_core, upload_of. rewrite Hend, Happ.
-  assert (Hext : (extent (e_chunks e0) <= e_size e0)%N).
-  { unfold append_trigger in Htrig. rewrite Happ, Hc in Htrig. simpl in Htrig. lia. }
   destruct (upload_no_inline (rq_cs rq) (rq_limit rq) (negb true) (rq_etc rq)
-              (rq_body rq) Eof (rq_upfail rq) Hcs Hup) as (new & n & h & Heq & Ht & Hn & Heof & _).
+              (rq_body rq) (rq_upfail rq) Hcs Hup) as (new & Heq & Ht).
   { left. reflexivity. }
-  destruct (Heof eq_refl) as [-> ->]. rewrite firstn_all in Ht.
-  cbv zeta. rewrite Heq. simpl ur_err. cbv iota.
+  cbv zeta. rewrite Heq. unfold ur_failed. simpl orb. cbv iota.
   unfold save_metadata. rewrite Hc. simpl.
+  rewrite (entry_size_chunked e0 Hc).
   eexists. split; [reflexivity|].
-  apply (tiles_shift _ _ _ (e_size e0)) in Ht. rewrite N.add_0_l in Ht.
+  apply (tiles_shift _ _ _ (file_end e0)) in Ht. rewrite N.add_0_l in Ht.
   pose proof (tiles_extent _ _ _ Ht) as He.
-  split; [apply read_append; auto|]. split; [reflexivity|].
-  unfold file_end. simpl. rewrite extent_app. lia.
+  assert (Hext : (extent (e_chunks e0) <= file_end e0)%N) by (unfold file_end; lia).
+  split; [apply read_append; auto|].
+  match goal with |- file_end ?E = _ /\ _ =>
+    assert (Hfe : file_end E = (file_end e0 + N.of_nat (length (rq_body rq)))%N) end.
+  { unfold file_end at 1. cbn [e_size e_chunks]. rewrite extent_app. lia. }
+  split; [exact Hfe|]. rewrite Hfe. reflexivity.
 Qed.
 
 Theorem append_inline_refused : forall rq e0 pre,
@@ -571,22 +579,27 @@ Proof.
   assert (Hs : forall ur, save_metadata md5 (rq_append rq) (Some e0) (rq_body rq) ur = (false, Some e0)).
   { intros ur. unfold save_metadata. rewrite Happ. destruct (e_content e0); [congruence|reflexivity]. }
   destruct (rq_method rq); try reflexivity;
-    (destruct (ur_err (upload_of rq)); [reflexivity|rewrite Hs; reflexivity]).
+    (destruct (ur_failed (upload_of rq)); [reflexivity|rewrite Hs; reflexivity]).
 Qed.
 
 (* C25, part 3 *)
 Theorem upload_failure_aborts : forall rq pre,
-  ur_err (upload_of rq) = true -> handle_write md5 rq pre = (Failed, pre).
+  ur_failed (upload_of rq) = true -> handle_write md5 rq pre = (Failed, pre).
 Proof.
   intros rq pre H. unfold handle_write. rewrite H. destruct (rq_method rq); reflexivity.
 Qed.
 
-Theorem fail_no_commit_partial : forall rq pre,
-  read_err_trigger rq = false -> request_fails rq = true ->
+Theorem fail_no_commit : forall rq pre,
+  (1 <= rq_cs rq)%Z -> request_fails rq = true ->
   handle_write md5 rq pre = (Failed, pre).
 Proof.
-  intros rq pre Ht Hf. unfold request_fails, read_err_trigger in *. rewrite Ht in Hf.
-  apply upload_failure_aborts. exact Hf.
+  intros rq pre Hcs Hf. apply upload_failure_aborts.
+  unfold request_fails in Hf. unfold ur_failed.
+  destruct (is_err (rq_end rq)) eqn:He.
+  - apply orb_true_iff. right.
+    unfold upload_of, upload_reader_to_chunks. rewrite finish_rerr.
+    apply loop_rerr; auto; try lia. apply fuel_ok. lia.
+  - simpl in Hf. rewrite Hf. reflexivity.
 Qed.
 
 (* every response other than 201 leaves the store as it was *)
@@ -595,20 +608,17 @@ Theorem nonsuccess_no_commit : forall rq pre st post,
 Proof.
   intros rq pre st post H Hst. unfold handle_write in H.
   assert (Hcore : (let ur := upload_of rq in
-                   if ur_err ur then (Failed, pre)
+                   if ur_failed ur then (Failed, pre)
                    else let '(ok, post) := save_metadata md5 (rq_append rq) pre (rq_body rq) ur in
                         ((if ok then Created else Failed), post)) = (st, post) ->
                   st = Failed /\ post = pre).
-  { cbv zeta. destruct (ur_err (upload_of rq)); [intros E; inversion E; auto|].
+  { cbv zeta. destruct (ur_failed (upload_of rq)); [intros E; inversion E; auto|].
     unfold save_metadata.
     destruct (if rq_append rq then pre else None) as [e|].
     - destruct (negb (is_nil (e_content e))); intros E; inversion E; subst; auto; congruence.
     - intros E; inversion E; subst; congruence. }
   destruct (rq_method rq); auto. inversion H; auto.
 Qed.
-
-Lemma finish_err : forall r, ur_err (finish r) = ur_err r.
-Proof. intros r. unfold finish. destruct (ur_err r) eqn:E; simpl; auto. Qed.
 
 Theorem upload_failure_detected : forall rq pre j,
   (1 <= rq_cs rq)%Z -> rq_end rq = Eof ->
@@ -619,65 +629,43 @@ Theorem upload_failure_detected : forall rq pre j,
   handle_write md5 rq pre = (Failed, pre).
 Proof.
   intros rq pre j Hcs Hend Hni Hj Hlen. apply upload_failure_aborts.
+  unfold ur_failed. apply orb_true_iff. left.
   unfold upload_of, upload_reader_to_chunks. rewrite finish_err, Hend.
   apply (loop_err_detected _ _ _ _ _ _ _ _ _ _ _ j); auto; try lia.
   - apply fuel_ok. lia.
   - destruct Hni as [->|H]; auto.
 Qed.
 
-(* what the code does with a failing body when nothing is inlined: it commits a
-   chunk-rounded prefix and answers 201 *)
-Theorem read_error_commits_prefix : forall rq pre,
-  rq_method rq <> PostRaw -> (1 <= rq_cs rq)%Z -> is_err (rq_end rq) = true ->
-  no_upfail (rq_upfail rq) -> existing rq pre = None ->
-  rq_append rq = true \/
-  inline_cond (rq_cs rq) (rq_limit rq) (rq_etc rq) (length (rq_body rq)) = false ->
-  exists e n k, handle_write md5 rq pre = (Created, Some e) /\
-                read_entry e = firstn n (rq_body rq) /\ e_size e = N.of_nat n /\
-                (n = k * Z.to_nat (rq_cs rq))%nat /\ (n <= length (rq_body rq))%nat /\
-                (length (rq_body rq) - n <= Z.to_nat (rq_cs rq))%nat.
-Proof.
-  intros rq pre Hm Hcs Hend Hup Hex Hni.
-  rewrite handle_write_core by exact Hm. unfold write_core, upload_of.
-  destruct (upload_no_inline (rq_cs rq) (rq_limit rq) (negb (rq_append rq)) (rq_etc rq)
-              (rq_body rq) (rq_end rq) (rq_upfail rq) Hcs Hup) as (new & n & h & Heq & Ht & Hn & _ & Herr).
-  { destruct Hni as [->|H]; auto. }
-  destruct (Herr Hend) as [[k Hk] Hrem].
-  cbv zeta. rewrite Heq. simpl ur_err. cbv iota.
-  rewrite save_new by exact Hex. simpl.
-  eexists. exists n, k. split; [reflexivity|]. simpl.
-  split; [|repeat split; auto].
-  rewrite <- (firstn_length_le (rq_body rq) Hn) at 1.
-  apply read_tiles. exact Ht.
-Qed.
-
-(* the int32 chunk size is <= 0: nothing is read and an empty file is committed with 201 *)
-Theorem nonpositive_chunk_size_stores_nothing : forall rq pre,
-  rq_method rq <> PostRaw -> (rq_cs rq <= 0)%Z -> existing rq pre = None ->
-  handle_write md5 rq pre =
-    (Created, Some {| e_size := 0; e_content := []; e_chunks := []; e_md5 := Some (md5 []) |}).
-Proof.
-  intros rq pre Hm Hcs Hex.
-  rewrite handle_write_core by exact Hm. unfold write_core, upload_of.
-  rewrite upload_nonpositive_cs by exact Hcs. simpl ur_err. cbv iota.
-  rewrite save_new by exact Hex. simpl. reflexivity.
-Qed.
-
 End WithMd5.
 
 (* ---------- autoChunk's chunk size ---------- *)
 
-Theorem chunk_size_ok : forall q opt,
-  ((1 <= q <= 2047 -> chunk_size_of q opt = 1048576 * q) /\
-   (q = 0 -> 1 <= opt <= 2047 -> chunk_size_of q opt = 1048576 * opt))%Z.
+(* whenever autoChunk lets the request through, the chunk size is the requested
+   number of MiB, positive and not wrapped *)
+Theorem auto_chunk_size_ok : forall q opt cs,
+  auto_chunk_size q opt = Some cs ->
+  (exists m, 1 <= m <= 2047 /\ cs = 1048576 * m /\ 1 <= cs)%Z.
 Proof.
-  intros q opt. unfold chunk_size_of, wrap32. split.
+  intros q opt cs. unfold auto_chunk_size.
+  set (m := if ((wrap32 q <=? 0) && (0 <? opt))%Z then wrap32 opt else wrap32 q).
+  destruct ((m <=? 0) || (2047 <? m))%Z eqn:E; [discriminate|].
+  intros H. inversion H; subst cs. exists m. unfold wrap32. lia.
+Qed.
+
+Theorem auto_chunk_size_accepts : forall q opt,
+  ((1 <= q <= 2047 -> auto_chunk_size q opt = Some (1048576 * q)) /\
+   (q = 0 -> 1 <= opt <= 2047 -> auto_chunk_size q opt = Some (1048576 * opt)))%Z.
+Proof.
+  intros q opt. unfold auto_chunk_size, wrap32. split.
   - intros H.
     replace ((q + 2147483648) mod 4294967296 - 2147483648)%Z with q by lia.
-    replace ((q <=? 0)%Z) with false by lia. simpl andb. cbv iota. lia.
+    replace ((q <=? 0)%Z) with false by lia. simpl andb. cbv iota.
+    replace ((q <=? 0) || (2047 <? q))%Z with false by lia. f_equal. lia.
   - intros -> H.
     replace (((0 + 2147483648) mod 4294967296 - 2147483648 <=? 0)%Z && (0 <? opt)%Z) with true by lia.
-    cbv iota. lia.
+    cbv iota.
+    replace ((opt + 2147483648) mod 4294967296 - 2147483648)%Z with opt by lia.
+    replace ((opt <=? 0) || (2047 <? opt))%Z with false by lia. f_equal. lia.
 Qed.
 
 (* ---------- the length-level plan is the shape of the byte-level loop ---------- *)
@@ -706,7 +694,8 @@ Proof.
   pose proof (read_chunk_len cs bytes e) as Hr.
   destruct (read_chunk cs bytes e) as [[d rest] rerr]. rewrite Hr. cbv zeta.
   destruct (rerr || (N.of_nat (length d) =? 0)%N); [reflexivity|].
-  destruct ((off =? 0)%N && inl && ((Z.of_N (N.of_nat (length d)) <? limit)%Z || etc)); [reflexivity|].
+  destruct ((off =? 0)%N && inl && (Z.of_N (N.of_nat (length d)) <? cs)%Z &&
+            ((Z.of_N (N.of_nat (length d)) <? limit)%Z || etc)); [reflexivity|].
   destruct (Z.of_N (N.of_nat (length d)) <? cs)%Z.
   - destruct (hd false upfail); unfold shape; simpl; [reflexivity|].
     rewrite map_app. reflexivity.
@@ -722,68 +711,20 @@ Proof.
                 0%N [] false 0%N) as H.
   simpl map in H. rewrite <- H.
   set (r := upload_loop _ _ _ _ _ _ _ _ _ _ _ _).
-  unfold finish, plan_finish, shape. simpl pl_err.
-  destruct (ur_err r) eqn:E; [reflexivity|]. rewrite E. reflexivity.
+  unfold finish, plan_finish, ur_failed, shape. simpl pl_err. simpl pl_rerr.
+  destruct (ur_err r || ur_rerr r) eqn:E; reflexivity.
 Qed.
-(* ---------- concrete witnesses (refutations of the full statements, non-vacuity) ---------- *)
+
+(* ---------- concrete examples (non-vacuity; the inputs that used to fail) ---------- *)
 
 Definition mk_rq m app etc cs limit body e upfail : request :=
   {| rq_method := m; rq_append := app; rq_etc := etc; rq_cs := cs; rq_limit := limit;
      rq_body := body; rq_end := e; rq_upfail := upfail |}.
 
-Lemma stored_equals_body_refuted : exists md5 rq pre e,
-  rq_method rq <> PostRaw /\ (1 <= rq_cs rq)%Z /\ rq_end rq = Eof /\ no_upfail (rq_upfail rq) /\
-  existing rq pre = None /\
-  handle_write md5 rq pre = (Created, Some e) /\ read_entry e <> rq_body rq.
-Proof.
-  exists (fun _ => 0%N), (mk_rq Put false false 2 4 [1;2;3]%N Eof []), None.
-  eexists. repeat split; try discriminate; try reflexivity.
-  all: try (vm_compute; discriminate).
-Qed.
-
-Lemma stored_equals_body_refuted_etc : exists md5 rq pre e,
-  rq_method rq <> PostRaw /\ (1 <= rq_cs rq)%Z /\ rq_end rq = Eof /\ no_upfail (rq_upfail rq) /\
-  existing rq pre = None /\ rq_limit rq = 0%Z /\
-  handle_write md5 rq pre = (Created, Some e) /\ read_entry e <> rq_body rq.
-Proof.
-  exists (fun _ => 0%N), (mk_rq Put false true 2 0 [1;2;3]%N Eof []), None.
-  eexists. repeat split; try discriminate; try reflexivity.
-  all: try (vm_compute; discriminate).
-Qed.
-
-Lemma chunk_size_refuted : exists md5 q opt body e,
-  handle_write md5 (mk_rq Put false false (chunk_size_of q opt) 0 body Eof []) None = (Created, Some e) /\
-  body <> [] /\ read_entry e = [].
-Proof.
-  exists (fun _ => 0%N), 2048%Z, 4%Z, [104;105]%N. eexists.
-  split; [vm_compute; reflexivity|]. split; [discriminate|reflexivity].
-Qed.
-
-Lemma append_at_end_refuted : exists md5 rq e0 e1,
-  rq_method rq <> PostRaw /\ (1 <= rq_cs rq)%Z /\ rq_end rq = Eof /\ no_upfail (rq_upfail rq) /\
-  rq_append rq = true /\ e_content e0 = [] /\ wf_entry e0 /\
-  handle_write md5 rq (Some e0) = (Created, Some e1) /\
-  read_entry e1 <> read_entry e0 ++ rq_body rq.
-Proof.
-  exists (fun _ => 0%N), (mk_rq Put true false 4 0 [90]%N Eof []),
-         {| e_size := 0; e_content := []; e_chunks := [Ck 0 3 [97;98;99]%N]; e_md5 := None |}.
-  eexists. repeat split; try discriminate; try reflexivity.
-  all: try (repeat constructor; fail).
-  all: try (vm_compute; discriminate).
-Qed.
-
-Lemma fail_no_commit_refuted : exists md5 rq pre e,
-  request_fails rq = true /\ handle_write md5 rq pre = (Created, Some e) /\
-  read_entry e = [1;2]%N.
-Proof.
-  exists (fun _ => 0%N), (mk_rq Put false false 2 0 [1;2;3]%N ReadErr []), None.
-  eexists. split; [reflexivity|]. split; vm_compute; reflexivity.
-Qed.
-
 Lemma example_chunked :
   let rq := mk_rq PostForm false false 3 2 [1;2;3;4;5;6;7]%N Eof [false;false;false] in
   rq_method rq <> PostRaw /\ (1 <= rq_cs rq)%Z /\ rq_end rq = Eof /\ no_upfail (rq_upfail rq) /\
-  existing rq None = None /\ inline_trunc_trigger rq = false /\
+  existing rq None = None /\
   handle_write (fun l => N.of_nat (length l)) rq None =
     (Created, Some {| e_size := 7; e_content := [];
                       e_chunks := [Ck 0 3 [1;2;3]; Ck 3 3 [4;5;6]; Ck 6 1 [7]]%N; e_md5 := Some 7%N |}).
@@ -791,24 +732,46 @@ Proof. repeat split; try discriminate; vm_compute; reflexivity. Qed.
 
 Lemma example_inline :
   let rq := mk_rq Put false false 4 5 [8;9]%N Eof [] in
-  inline_trunc_trigger rq = false /\
   handle_write (fun l => N.of_nat (length l)) rq None =
     (Created, Some {| e_size := 2; e_content := [8;9]%N; e_chunks := []; e_md5 := Some 2%N |}).
+Proof. vm_compute; reflexivity. Qed.
+
+(* limit 4 above the chunk size 2, body of 3 bytes: chunked, nothing dropped *)
+Lemma example_limit_above_chunk :
+  let rq := mk_rq Put false false 2 4 [1;2;3]%N Eof [] in
+  exists e, handle_write (fun _ => 0%N) rq None = (Created, Some e) /\
+            e_content e = [] /\ read_entry e = [1;2;3]%N.
+Proof. eexists. repeat split; vm_compute; reflexivity. Qed.
+
+(* same under /etc *)
+Lemma example_etc :
+  let rq := mk_rq Put false true 2 0 [1;2;3]%N Eof [] in
+  exists e, handle_write (fun _ => 0%N) rq None = (Created, Some e) /\ read_entry e = [1;2;3]%N.
+Proof. eexists. split; vm_compute; reflexivity. Qed.
+
+(* append to an entry with chunk [0,3) and FileSize attribute 0: lands at offset 3 *)
+Lemma example_append_filesize0 :
+  let e0 := {| e_size := 0; e_content := []; e_chunks := [Ck 0 3 [97;98;99]%N]; e_md5 := None |} in
+  let rq := mk_rq Put true false 4 0 [90]%N Eof [] in
+  wf_entry e0 /\
+  exists e1, handle_write (fun _ => 0%N) rq (Some e0) = (Created, Some e1) /\
+             read_entry e1 = [97;98;99;90]%N /\ e_size e1 = 4%N.
+Proof. split; [repeat constructor|]. eexists. repeat split; vm_compute; reflexivity. Qed.
+
+(* the reader fails after 3 bytes: reported, nothing committed *)
+Lemma example_read_error :
+  let rq := mk_rq Put false false 2 0 [1;2;3]%N ReadErr [] in
+  request_fails rq = true /\ handle_write (fun _ => 0%N) rq None = (Failed, None).
 Proof. split; vm_compute; reflexivity. Qed.
 
-Lemma example_append :
-  let e0 := {| e_size := 4; e_content := []; e_chunks := [Ck 0 4 [1;2;3;4]%N]; e_md5 := None |} in
-  let rq := mk_rq Put true false 2 0 [5;6;7]%N Eof [] in
-  append_trigger rq (Some e0) = false /\ wf_entry e0 /\
-  exists e1, handle_write (fun _ => 0%N) rq (Some e0) = (Created, Some e1) /\
-             read_entry e1 = [1;2;3;4;5;6;7]%N.
-Proof.
-  split; [reflexivity|]. split; [repeat constructor|].
-  eexists. split; vm_compute; reflexivity.
-Qed.
-
+(* the second upload fails: reported, nothing committed *)
 Lemma example_upload_failure :
   let rq := mk_rq Put false false 2 0 [1;2;3]%N Eof [false;true] in
-  read_err_trigger rq = false /\ request_fails rq = true /\
-  handle_write (fun _ => 0%N) rq None = (Failed, None).
+  request_fails rq = true /\ handle_write (fun _ => 0%N) rq None = (Failed, None).
+Proof. split; vm_compute; reflexivity. Qed.
+
+(* maxMB=2048 is rejected; maxMB=2047 is the largest accepted value *)
+Lemma example_maxmb :
+  auto_chunk_size 2048 4 = None /\ auto_chunk_size 0 0 = None /\
+  auto_chunk_size 2047 4 = Some 2146435072%Z /\ auto_chunk_size 0 4 = Some 4194304%Z.
 Proof. repeat split; vm_compute; reflexivity. Qed.
